@@ -1047,6 +1047,9 @@ class Expr:
             return self.operands[0]._is_nonnegative
         elif self.kind == "positive":
             return self.operands[0]._is_nonpositive
+        elif self.kind == "absolute" and self.operands[0].is_complex:
+            # the modulus of a complex value is zero only for a zero value: no sign inference on the operand
+            return
         elif self.kind in {"sqrt", "square", "absolute"} and self.operands[0]._is_positive:
             return False
         elif self.kind in {"square", "absolute"} and self.operands[0]._is_negative:
